@@ -46,7 +46,7 @@ fn judge(ctx: &mut Ctx, text: &str, family: &str, want: Want) {
             Err(p) => {
                 let msg = p.rsplit_once(" @ ").map(|x| x.0).unwrap_or(&p);
                 // strip the concrete payload after ':' so that one defect has one signature
-                let class: String = msg.split([':', ';']).next().unwrap_or(msg).chars().map(|c| if c.is_ascii_digit() { '#' } else { c }).collect();
+                let class: String = msg.split([':', ';', '`', '"', '\'']).next().unwrap_or(msg).chars().map(|c| if c.is_ascii_digit() { '#' } else { c }).collect();
                 let class = class.replace("##", "#").replace("##", "#").replace("##", "#");
                 ctx.violation(format!("C06 panic {entry} [{}] {}", panic_site(&p), clip(class.clone(), 80)), format!("the parser panicked: {p}"), json!({"text": text, "entry": entry, "family": family}));
             }
@@ -312,8 +312,40 @@ fn random_strings(ctx: &mut Ctx, n: usize) {
     ctx.rng = rng;
 }
 
+/// string literals over an alphabet made of the pieces of escapes: backslash, u, braces, hex digits, quote letters — inside quotes,
+/// so the unescaper sees every arrangement of complete, broken and look-alike escapes next to literal braces
+fn escape_soup(ctx: &mut Ctx, n: usize) {
+    let mut rng = ctx.rng.clone();
+    let pieces = ["\\", "\\", "u", "{", "}", "{", "}", "4", "1", "d", "8", "0", "f", "F", "n", "t", "r", "'", "\\\"", "\\u{41}", "\\u{", "\\u", "\\n", "\\\\", "x", " ", "é", "\u{1F600}", "10ffff", "110000", "d800"];
+    // every arrangement of up to 3 pieces, then random longer ones
+    ctx.align();
+    for a in 0..pieces.len() {
+        for b in 0..=pieces.len() {
+            for c in 0..=pieces.len() {
+                if !ctx.mine() {
+                    continue;
+                }
+                let body = format!("{}{}{}", pieces[a], pieces.get(b).unwrap_or(&""), pieces.get(c).unwrap_or(&""));
+                judge(ctx, &format!("\"{body}\""), "escape-soup", Want::NoPanic);
+            }
+        }
+    }
+    for _ in 0..n {
+        let body: String = (0..1 + rng.below(12)).map(|_| *rng.pick(&pieces)).collect();
+        let text = match rng.below(4) {
+            0 => format!("\"{body}\""),
+            1 => format!("[\"{body}\", \"{body}\"]"),
+            2 => format!("// n\n@k: \"{body}\";\nx == \"{body}\""),
+            _ => format!("{{k: \"{body}\"}}.k"),
+        };
+        judge(ctx, &text, "escape-soup", Want::NoPanic);
+    }
+    ctx.rng = rng;
+}
+
 fn run(ctx: &mut Ctx) {
     named(ctx);
+    escape_soup(ctx, ctx.tier.of(6_000, 120_000));
     magnitudes(ctx);
     escapes(ctx);
     long_tokens_in_error_position(ctx);
@@ -336,7 +368,7 @@ fn finish(m: &Merged, tier: Tier) -> Finish {
         exhaustive_part: format!("token sequences of length <= {} over the alphabet, the magnitude grid and the escape grid are enumerated completely", tier.of(3, 4)),
         ..Default::default()
     };
-    for fam in ["named-must-reject", "named-in-rule", "magnitudes", "escapes", "token-sequences", "generated-mutated", "random-strings"] {
+    for fam in ["named-must-reject", "named-in-rule", "magnitudes", "escapes", "token-sequences", "generated-mutated", "random-strings", "escape-soup"] {
         f.floors.push(floor(format!("family {fam}: {} texts", m.c(&format!("family:{fam}"))), m.c(&format!("family:{fam}")) >= 100));
     }
     let acc = m.c("outcome:Expr::parse:accepted") + m.c("outcome:Rule::parse:accepted");
